@@ -28,12 +28,12 @@ Proof. split; vm_compute; reflexivity. Qed.
 
 (* the first failing bracket decides: here the second one (KeyError), although the third would raise ValueError;
    the positional bracket [a-1] in front is not even looked at *)
-Definition ex_segs_bad : list seg := [mkSeg "X" "" "a-1" ""; mkSeg " + Y" "" "`1999`" ""; mkSeg " + Z" "" "`2001`:a" ""].
+Definition ex_segs_bad : list seg := [mkSeg "X" "" "a-1" ""; mkSeg " + Y" "" "`1999`" ""; mkSeg " + Z" "" "`2001`:1:1:1" ""].
 Example ex_first_error :
   forallb seg_ok ex_segs_bad = true /\
   seg_out (span_has sp_years) (span_locate sp_years) (mkSeg "X" "" "a-1" "") = Ret "[a-1]" /\
   seg_out (span_has sp_years) (span_locate sp_years) (mkSeg " + Y" "" "`1999`" "") = Raise KeyError /\
-  seg_out (span_has sp_years) (span_locate sp_years) (mkSeg " + Z" "" "`2001`:a" "") = Raise ValueError /\
+  seg_out (span_has sp_years) (span_locate sp_years) (mkSeg " + Z" "" "`2001`:1:1:1" "") = Raise ValueError /\
   eval_text_span sp_years (expr_text ex_segs_bad "") = Raise KeyError.
 Proof. repeat split; vm_compute; reflexivity. Qed.
 
@@ -46,7 +46,7 @@ Proof. split; vm_compute; reflexivity. Qed.
 
 (* ---- exceptions: each of the three classes occurs; a span whose lookup raises something else passes it on ---- *)
 Example ex_exn_classes :
-  rewrite_span sp_str "X[`a`:b]" = Raise ValueError /\ rewrite_span sp_str "X[`zz`]" = Raise KeyError /\
+  rewrite_span sp_str "X[`a`:1:1:1]" = Raise ValueError /\ rewrite_span sp_str "X[`zz`]" = Raise KeyError /\
   rewrite_span sp_str "X[]" = Ret "X[]" /\
   rewrite_span (SpanTable [(LStr "q", (true, Raise TypeError))]) "X[`q`]" = Raise TypeError.
 Proof. repeat split; vm_compute; reflexivity. Qed.
